@@ -94,9 +94,17 @@ Fixpoint c05_steps_ok (dec : string -> option (string * Z * Z)) (full : bool)
       c05_steps_ok dec full r (match obs with _ :: t => t | [] => [] end)
   end.
 
+(* the Bitcoin starting height, once recorded, is the anchor of every later bound (announcement until start+503,
+   payment until start+504): no step - restarts included - may move it *)
+Definition c05_start_stable (steps : list obs_step) : bool :=
+  forallb (fun s =>
+    let a := d_start_height (m_data (os_pre s)) in
+    if String.eqb (get_chain (m_data (os_pre s))) btc_chain && (0 <? a)
+    then d_start_height (m_data (os_post s)) =? a else true) steps.
+
 (* the property's full statement on the observed scenario *)
 Definition c05_monitor (c : c05_case) : bool :=
   let dec := fun p => assoc_str p (sc_decode (fst c)) in
   (* only the part of the scenario inside the environment assumption (see Model/C01Corr.v) *)
   let steps := allowed_prefix false (sc_steps (fst c)) in
-  c05_steps_ok dec true steps (snd c).
+  c05_steps_ok dec true steps (snd c) && c05_start_stable steps.
